@@ -87,6 +87,31 @@ func (i *interpreter) harnessIntrinsic(fn *ssa.Function) intrinsic {
 			}
 			return mkString(out)
 		}
+	case "nondet_bytes_abstract":
+		return func(fr *frame, args []value) value {
+			nm := goString(fr, args[0])
+			n := fr.i.ex.freshInput(nm+".len", "u64", 64)
+			fr.i.ex.absSeq++
+			lim := mkCmp(OpUle, n, mkConst(64, 1<<40))
+			fr.i.ex.assertPC(lim)
+			return &absBytes{id: fr.i.ex.absSeq, off: mkConst(64, 0), n: n, c: n}
+		}
+	case "verif_abs_offset":
+		return func(fr *frame, args []value) value {
+			ab, ok := args[0].(*absBytes)
+			if !ok {
+				abandon("verif_abs_offset of a concrete slice")
+			}
+			return norm(ab.off, types.Typ[types.Int])
+		}
+	case "verif_abs_id":
+		return func(fr *frame, args []value) value {
+			ab, ok := args[0].(*absBytes)
+			if !ok {
+				return -1
+			}
+			return ab.id
+		}
 	case "nondet_choice":
 		return func(fr *frame, args []value) value {
 			n := goInt(fr, args[1])
